@@ -38,4 +38,8 @@ if __name__ == "__main__":
 
         traceback.print_exc()
         rc = 2
-    sys.exit(rc)
+    # leave with the computed code whatever the tear-down of the imported native libraries does (a changed library has been seen to
+    # crash the interpreter at exit, after the report was complete)
+    sys.stdout.flush()
+    sys.stderr.flush()
+    os._exit(int(rc or 0))
